@@ -14,11 +14,14 @@
    "t" "~", the rest are plain names.  E.g. "%2F" = [sep,1], "%252E%252E" = [dd,2], "%00" = [z,1].
    urlutils.escape raises the level of everything that needs quoting, unescape lowers every level >= 1.
 
-   NAMED DEVIATION (DESIGN.md section 7, C31): the above-root check of joinpath runs on the still-encoded path and
+   HISTORY (DESIGN.md section 7, C31): the above-root check of joinpath runs on the still-encoded path and
    VfsRequest un-escapes afterwards; the chroot transport treats a segment such as "..%2F.." as an ordinary name
-   and LocalTransport decodes it to "../..".  So the model, like the code, lets VFS verbs escape for inputs with a
-   "%2F" separator inside a segment that also contains "..": JailInvariant below is *violated* by the model
-   (TLC exhibits the inputs), and EscapesOnlyKnown states that nothing else escapes. *)
+   and LocalTransport decodes it to "../..".  Until /repo commit 797f5cb VFS verbs therefore escaped for inputs
+   with a "%2F" separator inside a segment that also contains ".." (and cloning verbs for a segment starting with
+   "%2F").  VfsRequest.translate_client_path now refuses any un-escaped result that still contains an escaped
+   separator, and the model says so (TranslateVfs, guard = TRUE): JailInvariant HOLDS on the model.  The model
+   without the guard (SpecOutUnguarded) is kept to state which input classes the guard is there for
+   (EscapesOnlyKnown): those classes key the violation signatures, so a regression is reported under the old names. *)
 EXTENDS Naturals, Sequences, FiniteSets
 
 Tok(k, l) == [k |-> k, l |-> l]
@@ -106,10 +109,13 @@ TranslatePlain(root, cp0) ==
             LET jp == JoinPath(SubSeq(cp, Len(rt) + 1, Len(cp))) IN
             IF jp = AboveP THEN Rej("above-root") ELSE [rej |-> "no", rel |-> Escape(<<Dot>> \o jp)]
        ELSE Rej("not-child")
-\* VfsRequest.translate_client_path
-TranslateVfs(root, cp) ==
-    LET p == TranslatePlain(root, cp) IN
-    IF p.rej # "no" THEN p ELSE [rej |-> "no", rel |-> Unescape(p.rel)]
+\* VfsRequest.translate_client_path: un-escape once more, then (guard) refuse a result containing "%2f"
+HasEscapedSep(rel) == \E i \in DOMAIN rel : rel[i] = Tok("sep", 1)
+VfsOf(p, guard) ==
+    IF p.rej # "no" THEN p
+    ELSE LET rel == Unescape(p.rel) IN
+         IF guard /\ HasEscapedSep(rel) THEN Rej("escaped-separator") ELSE [rej |-> "no", rel |-> rel]
+TranslateVfs(root, cp) == VfsOf(TranslatePlain(root, cp), TRUE)
 
 (* ------------------------------------------------------------------ server.py: pathfilter(userdirs) over chroot *)
 IsDotSeg(seg) == Len(seg) = 1 /\ seg[1].k = "d" /\ seg[1].l <= 1         \* "." and "%2E"
@@ -157,29 +163,35 @@ Kinds == {"plain", "vfs", "vfsclone"}
 TrKinds == {"plain", "vfs"}                  \* the two translate_client_path implementations
 Resolved(t, clone) == [rej |-> t.rej, rel |-> t.rel,
                        where |-> IF t.rej # "no" THEN "none" ELSE IF clone THEN WhereClone(t.rel) ELSE Where(t.rel)]
-\* all verb kinds at once (the VFS translation is the plain one, un-escaped)
-SpecOut(c) == LET tp == TranslatePlain(c.root, ClientPath(c))
-                  tv == IF tp.rej # "no" THEN tp ELSE [rej |-> "no", rel |-> Unescape(tp.rel)]
-              IN [plain |-> Resolved(tp, FALSE), vfs |-> Resolved(tv, FALSE), vfsclone |-> Resolved(tv, TRUE)]
+\* all verb kinds at once (the VFS translation is the plain one, un-escaped and guarded)
+SpecOutG(c, guard) == LET tp == TranslatePlain(c.root, ClientPath(c))
+                          tv == VfsOf(tp, guard)
+                      IN [plain |-> Resolved(tp, FALSE), vfs |-> Resolved(tv, FALSE), vfsclone |-> Resolved(tv, TRUE)]
+SpecOut(c) == SpecOutG(c, TRUE)                \* the code as it is
+SpecOutUnguarded(c) == SpecOutG(c, FALSE)      \* the code before 797f5cb / if the guard were lost
 Resolve(kind, c) == SpecOut(c)[kind]
 \* the property on the model: not rejected => inside the jail      (s = SpecOut(c))
 JailInvariantS(s) == \A kind \in Kinds : s[kind].rej = "no" => s[kind].where # "out"
 JailInvariant(c) == JailInvariantS(SpecOut(c))
 
-(* input class of the named deviation: a run of names joined by "%2F" (level-1 separators) that contains ".."
-   or "%2E%2E" *)
+(* input classes the guard exists for (they key the violation signatures).
+   first: a run of names joined by "%2F" (level-1 separators) that contains ".." or "%2E%2E" *)
 DotDotNames == {"..", "%2E%2E"}
 KnownDeviation(c) ==
     \E i \in 1..Len(c.names) : \E j \in i..Len(c.names) :
         /\ j > i
         /\ \A k \in i..(j - 1) : c.seps[k] = 1
         /\ \E k \in i..j : c.names[k] \in DotDotNames
-\* second named deviation (found by this check): a segment that STARTS with "%2F" makes cloning verbs absolute
+\* second (found by this check): a segment that STARTS with "%2F" makes cloning verbs absolute
 SlashFirstDeviation(c) == \E i \in 1..(Len(c.names) - 1) : c.names[i] = "" /\ c.seps[i] = 1
 EscapesOnlyKnownS(c, s) == /\ s.plain.where # "out"
                            /\ s.vfs.where = "out" => KnownDeviation(c)
                            /\ s.vfsclone.where = "out" => KnownDeviation(c) \/ SlashFirstDeviation(c)
-EscapesOnlyKnown(c) == EscapesOnlyKnownS(c, SpecOut(c))
+\* without the guard nothing outside those classes would escape; with it nothing escapes at all
+EscapesOnlyKnown(c) == EscapesOnlyKnownS(c, SpecOutUnguarded(c))
+GuardedHolds(c) == LET s == SpecOut(c) IN
+                   /\ JailInvariantS(s)
+                   /\ (s.vfs.rej = "escaped-separator" => EscapesOnlyKnown(c))
 
 (* ------------------------------------------------------------------ the jail for control directories
    (request.py _pre_open_hook / setup_jail): during a request a control directory may be opened only at a URL below
